@@ -103,8 +103,14 @@ func Load(repoDir, harnessDir string) (*Program, error) {
 			}
 		}
 	}
+	// go/packages looks "go" up on this process's PATH: it must be go1.26.8,
+	// which this binary and x/tools v0.50.0 were built for.
+	if !strings.HasPrefix(os.Getenv("PATH"), "/opt/veriftools/go1.26.8/bin:") {
+		os.Setenv("PATH", "/opt/veriftools/go1.26.8/bin:"+os.Getenv("PATH"))
+	}
 	cfg := &packages.Config{Mode: packages.LoadAllSyntax, Dir: repoDir, Overlay: overlay,
-		Env: append(os.Environ(), "GOFLAGS=-mod=mod", "GOPROXY=off", "GOSUMDB=off", "GOTOOLCHAIN=local")}
+		Env: append(os.Environ(), "GOFLAGS=-mod=mod", "GOPROXY=off", "GOSUMDB=off", "GOTOOLCHAIN=local",
+			"PATH=/opt/veriftools/go1.26.8/bin:"+os.Getenv("PATH"))}
 	pkgs, err := packages.Load(cfg, ".")
 	if err != nil {
 		return nil, err
